@@ -181,9 +181,62 @@ def path_search(f, fx, start_b, start_i, fld, local, dirty0, errb, is_restore=No
     return bad
 
 
+def _reaches_unindented(fx, f, targets):
+    """is some block of `targets` reachable from the entry of `f` on a path on which the line may still be at its start
+    (no `write_indent` call passed, and not on the false edge of an `at_line_start` test)?"""
+    ind = {b for b, t in f.calls() if fx.callee(t).endswith("::write_indent")}
+    skip = set()
+    for sb, sym, tt, ff in bool_switches(f):
+        if render(sym).endswith("at_line_start"):
+            skip.add((sb, ff))
+    seen, st = set(), [0]
+    while st:
+        x = st.pop()
+        if x in seen:
+            continue
+        seen.add(x)
+        if x in targets:
+            return True
+        if x in ind:
+            continue
+        for y in f.succ[x]:
+            if (x, y) not in skip:
+                st.append(y)
+    return False
+
+
+def rule_anchor_after_indent(ctx, fx, config):
+    """ORDER:anchor-mark-after-indent — `write_indent` is also what writes the document header (`%YAML 1.2` / `---`) before
+    the first node: an anchor or alias mark (`&name`, `*name`) written while the line is still at its start lands before
+    the header and the indentation, and the document does not parse.  Every writer of a mark indents first when
+    `at_line_start` — itself, or (if the writer leaves it to its callers) at every one of its call sites."""
+    n = 0
+    for w in sorted(fx.fns.values(), key=lambda g: g.npath):
+        if not w.file.endswith("src/ser.rs") or w.kind == "closure":
+            continue
+        marks = {b for b, t in w.calls() if fx.callee(t).endswith("Write::write_char") and len(t["args"]) > 1 and render(w.sym_operand(t["args"][1])) in ("'&'", "'*'")}
+        if not marks:
+            continue
+        n += 1
+        ctx.saw(w)
+        if not _reaches_unindented(fx, w, marks):
+            ctx.ok("ORDER", "C13:ORDER:anchor-mark-after-indent:%s" % w.name, "the mark is written after the line's indentation (and the document header)", config, ctx.where(w))
+            continue
+        # the writer relies on its callers: every call site must have indented
+        bad = []
+        for g in fx.fns.values():
+            for b, t in g.calls():
+                if fx.local_callee(t) is w and _reaches_unindented(fx, g, {b}):
+                    bad.append(g.name)
+        ctx.check(not bad, "ORDER", "C13:ORDER:anchor-mark-after-indent:%s" % w.name, "every caller indents before the mark is written",
+                  "`%s` writes an anchor / alias mark without indenting first, and so do its callers %s: at the start of a line the mark lands before the indentation — and, for the first node of a document, before the `%%YAML` / `---` header" % (w.name, sorted(set(bad))[:6]), config, ctx.where(w))
+    ctx.floor("ORDER.mark-writers", n, 3, config)
+
+
 def run(ctx):
     for config in ctx.configs:
         fx = ctx.facts(config)
+        rule_anchor_after_indent(ctx, fx, config)
         npairs = 0
         for f in sorted(fx.fns.values(), key=lambda f: f.npath):
             if not f.file.endswith("src/ser.rs"):
